@@ -11,6 +11,11 @@ import json
 import warnings
 
 warnings.filterwarnings("ignore")
+try:
+    from rdkit import RDLogger
+    RDLogger.DisableLog("rdApp.*")
+except Exception:
+    pass
 
 from . import model
 from .model import NOATOM, NOPAR, IdMap, mk_descr, descr_json
